@@ -7,7 +7,7 @@ import vtlib
 from checks import tracecheck
 
 
-def run_modes(ctx, modes, module, cfg, classify=None, vcpus=3, threads=4, ops=5, harness='h_sync', extra_args=()):
+def run_modes(ctx, modes, module, cfg, classify=None, vcpus=3, threads=4, ops=5, harness='h_sync', extra_args=(), extra_env=None, on_rows=None):
     """modes: list of (prim, executions).  Returns dict with counters; violations are reported through ctx."""
     h = ctx.build_harness(harness)
     kinds, n_exec, n_rej = {}, 0, 0
@@ -21,7 +21,9 @@ def run_modes(ctx, modes, module, cfg, classify=None, vcpus=3, threads=4, ops=5,
         rows = vtlib.read_ndjson(trace)
         if not rows:
             raise vtlib.InfraError(f'{harness} --prim {prim} recorded nothing')
-        acc, rejs, n = tracecheck.validate(ctx, module, cfg, rows, tagbase=f'{module}_{prim}')
+        if on_rows:
+            on_rows(prim, rows)
+        acc, rejs, n = tracecheck.validate(ctx, module, cfg, rows, tagbase=f'{module}_{prim}', extra_env=extra_env)
         n_exec += n
         n_rej += len(rejs)
         for r in rows:
